@@ -24,7 +24,7 @@ type Auth struct {
 	Es   []int
 }
 
-var compNames = []string{"S0", "S1", "S2", "S3", "R0", "Ev"}
+var compNames = []string{"S0", "S1", "S2", "S3", "R0", "Ev", "En", "S4"}
 var ifaceNames = []string{"I0", "I2"}
 var entNames = []string{"E0", "E1", "E2"}
 
